@@ -52,6 +52,7 @@ Judge(a, o, w, res, o2, w2) ==
                             ELSE IF r.res = "ok" THEN "C01:valid-signature-rejected" ELSE "C03:invalid-signature-accepted"} ELSE {})
          \cup (IF r.res = "ErrAlgorithmMismatch" /\ reached /\ res # "ErrAlgorithmMismatch" THEN {"C04:mismatch-not-reported-as-ErrAlgorithmMismatch"} ELSE {})
          \cup (IF Norm(o2) # Norm(o) THEN {"C18:verify-modified-the-message"} ELSE {})
+    [] a.op = "sign" /\ o.sig # NoSig -> {}          \* signing an object that already carries a signature: no property fixes the outcome
     [] a.op = "sign" ->
          (IF ~okAgree THEN {IF r.res \in {"ErrAlgorithmMismatch", "ErrAlgorithmNotFound"} THEN "C04:sign-proceeds-under-another-or-no-algorithm"
                             ELSE IF r.res = "ErrInjected" THEN "C20:signer-error-not-returned" ELSE "C01:signing-verdict-differs"} ELSE {})
